@@ -10,19 +10,19 @@ Open Scope N_scope.
 Lemma last_cons_snoc : forall (x q d : N) v, last (x :: v ++ [q]) d = q.
 Proof. intros. rewrite app_comm_cons. apply last_last. Qed.
 
-(* unquote removes exactly one pair of matching quote characters *)
-Theorem unquote_wrap : forall q v, q = cDQ \/ q = cSQ -> unquote (q :: v ++ [q]) = v.
+(* ---- ConfigObj._unquote alone (= IniFileStore.unquote before 4293772) ---------------- *)
+Theorem unquote_old_wrap : forall q v, q = cDQ \/ q = cSQ -> unquote_old (q :: v ++ [q]) = v.
 Proof.
-  intros q v Hq. unfold unquote. rewrite last_cons_snoc, N.eqb_refl.
+  intros q v Hq. unfold unquote_old. rewrite last_cons_snoc, N.eqb_refl.
   assert (E : (q =? 34) || (q =? 39) = true)
     by (destruct Hq as [-> | ->]; reflexivity).
   rewrite E. cbn [andb tl]. apply removelast_last.
 Qed.
 
-Theorem unquote_not_quoted : forall c v,
-  (c =? 34) = false -> (c =? 39) = false -> unquote (c :: v) = c :: v.
+Theorem unquote_old_not_quoted : forall c v,
+  (c =? 34) = false -> (c =? 39) = false -> unquote_old (c :: v) = c :: v.
 Proof.
-  intros c v H1 H2. unfold unquote. rewrite H1, H2. cbn [orb]. rewrite andb_false_r. reflexivity.
+  intros c v H1 H2. unfold unquote_old. rewrite H1, H2. cbn [orb]. rewrite andb_false_r. reflexivity.
 Qed.
 
 Lemma length_removelast : forall (l : list N), length (removelast l) = pred (length l).
@@ -33,9 +33,9 @@ Proof.
   cbn [length]. rewrite IH. reflexivity.
 Qed.
 
-Lemma unquote_length : forall r, (length r <= length (unquote r) + 2)%nat.
+Lemma unquote_old_length : forall r, (length r <= length (unquote_old r) + 2)%nat.
 Proof.
-  intros [|c r]; [cbn; lia|]. unfold unquote.
+  intros [|c r]; [cbn; lia|]. unfold unquote_old.
   destruct ((c =? last (c :: r) 0) && ((c =? 34) || (c =? 39))); [|lia].
   cbn [tl]. rewrite length_removelast. cbn [length]. lia.
 Qed.
@@ -47,82 +47,226 @@ Proof.
   repeat (apply orb_false_iff in H; destruct H as [? H]). split; assumption.
 Qed.
 
+(* ---- IniFileStore.unquote (current) --------------------------------------------------- *)
+Lemma prefixb_app : forall p s, prefixb p (p ++ s) = true.
+Proof. induction p as [|x p IH]; intro s; cbn; [reflexivity|]. rewrite N.eqb_refl. apply IH. Qed.
+
+Lemma suffixb_app : forall p s, suffixb p (s ++ p) = true.
+Proof. intros. unfold suffixb. rewrite rev_app_distr. apply prefixb_app. Qed.
+
+Lemma strip3_wrap : forall a b c d e f v, strip3 ([a; b; c] ++ v ++ [d; e; f]) = v.
+Proof.
+  intros. unfold strip3. cbn [app skipn]. rewrite rev_app_distr. cbn [rev app skipn].
+  apply rev_involutive.
+Qed.
+
+(* a value wrapped in triple quotes (either kind) is unwrapped exactly *)
+Theorem unquote_triple : forall q3 v, q3 = q3d \/ q3 = q3s -> unquote (q3 ++ v ++ q3) = v.
+Proof.
+  intros q3 v Hq. unfold unquote.
+  assert (Hlen : (6 <=? length (q3 ++ v ++ q3))%nat = true).
+  { apply Nat.leb_le. rewrite !app_length. destruct Hq as [-> | ->]; cbn; lia. }
+  assert (Htw : triple_wrapped q3d (q3 ++ v ++ q3) || triple_wrapped q3s (q3 ++ v ++ q3) = true).
+  { assert (H : triple_wrapped q3 (q3 ++ v ++ q3) = true).
+    { unfold triple_wrapped. rewrite prefixb_app. rewrite app_assoc, suffixb_app. reflexivity. }
+    destruct Hq as [-> | ->]; rewrite H; [reflexivity|apply orb_true_r]. }
+  rewrite Hlen, Htw. cbn [andb]. destruct Hq as [-> | ->]; apply strip3_wrap.
+Qed.
+
+Lemma unquote_no_triple : forall v,
+  prefixb q3d v = false -> prefixb q3s v = false -> unquote v = unquote_old v.
+Proof.
+  intros v H1 H2. unfold unquote, triple_wrapped. rewrite H1, H2. cbn [andb orb].
+  rewrite andb_false_r. reflexivity.
+Qed.
+
+(* one pair of quotes around a text that does not contain that quote is removed *)
+Theorem unquote_wrap : forall q v,
+  q = cDQ \/ q = cSQ -> memb q v = false -> unquote (q :: v ++ [q]) = v.
+Proof.
+  intros q v Hq Hm. rewrite unquote_no_triple; [apply unquote_old_wrap; exact Hq| |].
+  - destruct Hq as [-> | ->]; [|reflexivity].
+    destruct v as [|c v]; [reflexivity|]. unfold memb in Hm. cbn [existsb] in Hm.
+    apply orb_false_iff in Hm. destruct Hm as [Hc _].
+    cbn [q3d prefixb app]. change cDQ with 34 in *. rewrite N.eqb_refl, Hc. reflexivity.
+  - destruct Hq as [-> | ->]; [reflexivity|].
+    destruct v as [|c v]; [reflexivity|]. unfold memb in Hm. cbn [existsb] in Hm.
+    apply orb_false_iff in Hm. destruct Hm as [Hc _].
+    cbn [q3s prefixb app]. change cSQ with 39 in *. rewrite N.eqb_refl, Hc. reflexivity.
+Qed.
+
+Theorem unquote_not_quoted : forall c v,
+  (c =? 34) = false -> (c =? 39) = false -> unquote (c :: v) = c :: v.
+Proof.
+  intros c v H1 H2. rewrite unquote_no_triple; [apply unquote_old_not_quoted; assumption| |].
+  - cbn [q3d prefixb]. rewrite N.eqb_sym, H1. reflexivity.
+  - cbn [q3s prefixb]. rewrite N.eqb_sym, H2. reflexivity.
+Qed.
+
+Lemma need_triple_false : forall v, need_triple v = false ->
+  memb cNL v = false /\ (memb cDQ v = true -> memb cSQ v = false).
+Proof.
+  intros v H. unfold need_triple in H. apply orb_false_iff in H. destruct H as [H1 H2].
+  split; [exact H2|]. intro Hd. rewrite Hd, andb_true_r in H1. exact H1.
+Qed.
+
 (* the raw text stored by Stack.set when no triple quoting is needed: the value
-   itself, or the value in one pair of quotes *)
+   itself, or the value in one pair of quotes; both are undone by unquote (old and new) *)
 Lemma cobj_quote_simple : forall v, need_triple v = false ->
-  exists r, cobj_quote v = Some r /\ unquote r = v.
+  exists r, cobj_quote v = Some r /\ unquote r = v /\ unquote_old r = v.
 Proof.
   intros [|c v] H.
-  - exists [cDQ; cDQ]. split; reflexivity.
+  - exists [cDQ; cDQ]. repeat split; reflexivity.
   - unfold cobj_quote. rewrite H.
     destruct (negb (memb c wspace_plus) && negb (memb (last (c :: v) 0) wspace_plus)
               && negb (memb 44 (c :: v)) && negb (memb 35 (c :: v))) eqn:E.
     + exists (c :: v). split; [reflexivity|].
       repeat (apply andb_true_iff in E; destruct E as [E ?]).
       apply negb_true_iff in E. apply memb_wspace_plus_false in E. destruct E as [E1 E2].
-      apply unquote_not_quoted; assumption.
+      split; [apply unquote_not_quoted|apply unquote_old_not_quoted]; assumption.
     + exists ((if memb cDQ (c :: v) then cSQ else cDQ) :: (c :: v)
               ++ [if memb cDQ (c :: v) then cSQ else cDQ]).
-      split; [reflexivity|]. apply unquote_wrap.
-      destruct (memb cDQ (c :: v)); [right|left]; reflexivity.
+      split; [reflexivity|]. destruct (need_triple_false _ H) as [_ Hq].
+      destruct (memb cDQ (c :: v)) eqn:Ed.
+      * split; [apply unquote_wrap; [right; reflexivity|apply Hq; reflexivity]
+               |apply unquote_old_wrap; right; reflexivity].
+      * split; [apply unquote_wrap; [left; reflexivity|exact Ed]
+               |apply unquote_old_wrap; left; reflexivity].
 Qed.
 
-(* in memory (Stack.set then Stack.get on the same stack) the value survives
-   EXACTLY when it contains no newline and not both kinds of quote *)
-Theorem mem_roundtrip_iff : forall v, set_get_mem v = Some v <-> need_triple v = false.
+(* ... and when triple quoting is needed: the value in triple quotes *)
+Lemma cobj_quote_triple : forall v r, need_triple v = true -> cobj_quote v = Some r ->
+  exists q3, (q3 = q3d \/ q3 = q3s) /\ r = q3 ++ v ++ q3.
 Proof.
-  intro v. split.
-  - intro H. destruct (need_triple v) eqn:E; [|reflexivity]. exfalso.
-    unfold set_get_mem, mem_raw, cobj_quote in H. destruct v as [|c v]; [discriminate|].
-    rewrite E in H.
-    assert (Hlen : forall q3, length q3 = 3%nat ->
-                   Some (unquote (q3 ++ (c :: v) ++ q3)) = Some (c :: v) -> False).
-    { intros q3 Hq Heq. injection Heq as Heq.
-      pose proof (unquote_length (q3 ++ (c :: v) ++ q3)) as Hl.
-      cbn [app] in Hl. rewrite Heq in Hl. rewrite app_length in Hl. cbn [length] in Hl.
-      rewrite app_length, Hq in Hl. lia. }
-    destruct (containsb q3d (c :: v) && containsb q3s (c :: v)); [discriminate|].
-    destruct (containsb q3d (c :: v)); eapply Hlen; try exact H; reflexivity.
-  - intro H. destruct (cobj_quote_simple v H) as (r & Hr & Hu).
-    unfold set_get_mem, mem_raw. rewrite Hr, Hu. reflexivity.
+  intros [|c v] r H Hr; [discriminate|]. unfold cobj_quote in Hr. rewrite H in Hr.
+  destruct (containsb q3d (c :: v) && containsb q3s (c :: v)); [discriminate|].
+  destruct (containsb q3d (c :: v)); injection Hr as <-; eauto.
 Qed.
 
-(* ... and then it also survives save + reload (as far as the file layer is modelled) *)
-Theorem file_roundtrip_guarded : forall v, need_triple v = false -> set_save_get v = SOk v.
+(* IN MEMORY (Stack.set then Stack.get on the same stack): every value that
+   ConfigObj accepts comes back unchanged -- no guard *)
+Theorem mem_roundtrip : forall v r, cobj_quote v = Some r -> unquote r = v.
 Proof.
-  intros v H. destruct (cobj_quote_simple v H) as (r & Hr & Hu).
-  unfold set_save_get, file_raw. rewrite Hr, H, Hu. reflexivity.
+  intros v r Hr. destruct (need_triple v) eqn:E.
+  - destruct (cobj_quote_triple v r E Hr) as (q3 & Hq & ->). apply unquote_triple; exact Hq.
+  - destruct (cobj_quote_simple v E) as (r' & Hr' & Hu & _). congruence.
 Qed.
 
-(* the full statement "any text value is read back unchanged" is FALSE *)
-Theorem roundtrip_refuted_newline :
-  exists v, value_safe v = true /\
-            set_get_mem v = Some ([34; 34] ++ v ++ [34; 34]) /\
-            set_save_get v = SOk ([34; 34] ++ v ++ [34; 34]) /\
-            set_get_mem v <> Some v /\ set_save_get v <> SOk v.
+Theorem set_get_mem_roundtrip : forall v, cobj_quote v <> None -> set_get_mem v = Some v.
 Proof.
-  exists [97; 10; 98]. vm_compute. repeat split; discriminate.
+  intros v H. unfold set_get_mem, mem_raw. destruct (cobj_quote v) as [r|] eqn:E; [|congruence].
+  rewrite (mem_roundtrip v r E). reflexivity.
 Qed.
 
-Theorem roundtrip_refuted_mixed_quotes :
-  exists v, value_safe v = true /\ memb cNL v = false /\
-            set_get_mem v = Some ([34; 34] ++ v ++ [34; 34]) /\
-            set_save_get v = SOk (removelast (tl v)) /\
-            set_get_mem v <> Some v /\ set_save_get v <> SOk v.
+(* the only refusal: a value needing triple quotes that contains both triple quotes *)
+Theorem cobj_quote_refuses_iff : forall v,
+  cobj_quote v = None <->
+  need_triple v = true /\ containsb q3d v = true /\ containsb q3s v = true.
+Proof.
+  intros [|c v]; [split; [discriminate|intros (H & _); discriminate]|].
+  unfold cobj_quote. destruct (need_triple (c :: v)) eqn:E.
+  - destruct (containsb q3d (c :: v)) eqn:E1, (containsb q3s (c :: v)) eqn:E2; cbn [andb];
+      split; intro H; try discriminate; try (destruct H as (_ & H1 & H2); discriminate); auto.
+  - destruct (negb (memb c wspace_plus) && negb (memb (last (c :: v) 0) wspace_plus)
+              && negb (memb 44 (c :: v)) && negb (memb 35 (c :: v)));
+      split; intro H; try discriminate; destruct H as (H & _); discriminate.
+Qed.
+
+(* THROUGH THE FILE (save + fresh stack), on the modelled ConfigObj file layer:
+   unchanged unless the value is in the residue class *)
+Lemma hd_rev_last : forall (v : str) d, hd d (rev v) = last v d.
+Proof.
+  intros v d. destruct v as [|x v] using rev_ind; [reflexivity|].
+  rewrite rev_app_distr, last_last. reflexivity.
+Qed.
+
+Lemma triple_wrapped_ends : forall q v, triple_wrapped [q; q; q] v = true ->
+  hd 0 v = q /\ last v 0 = q.
+Proof.
+  intros q v H. unfold triple_wrapped in H. apply andb_true_iff in H. destruct H as [H1 H2]. split.
+  - destruct v as [|c v]; [discriminate|]. cbn [prefixb] in H1.
+    apply andb_true_iff in H1. destruct H1 as [H1 _]. apply N.eqb_eq in H1. cbn. congruence.
+  - unfold suffixb in H2. cbn [rev app] in H2. rewrite <- hd_rev_last.
+    destruct (rev v) as [|c w]; [discriminate|]. cbn [prefixb] in H2.
+    apply andb_true_iff in H2. destruct H2 as [H2 _]. apply N.eqb_eq in H2. cbn. congruence.
+Qed.
+
+Lemma unquote_bare : forall v,
+  (hd 0 v =? last v 0) && ((hd 0 v =? 34) || (hd 0 v =? 39)) = false -> unquote v = v.
+Proof.
+  intros v H. unfold unquote.
+  assert (Htw : triple_wrapped q3d v || triple_wrapped q3s v = false).
+  { apply orb_false_iff. split.
+    - destruct (triple_wrapped q3d v) eqn:E; [|reflexivity].
+      apply triple_wrapped_ends in E. destruct E as [E1 E2]. rewrite E1, E2 in H. discriminate.
+    - destruct (triple_wrapped q3s v) eqn:E; [|reflexivity].
+      apply triple_wrapped_ends in E. destruct E as [E1 E2]. rewrite E1, E2 in H. discriminate. }
+  rewrite Htw, andb_false_r. unfold unquote_old. destruct v as [|c v]; [reflexivity|].
+  cbn [hd] in H. rewrite H. reflexivity.
+Qed.
+
+Theorem file_roundtrip_guarded : forall v r,
+  file_raw v = SOk r -> quote_residue v = false -> set_save_get v = SOk v.
+Proof.
+  intros v r Hf Hres. unfold set_save_get. rewrite Hf. f_equal.
+  unfold file_raw in Hf. destruct (cobj_quote v) as [q|] eqn:Eq; [|discriminate].
+  destruct (need_triple v) eqn:En.
+  - destruct (memb cNL v || memb 35 v) eqn:Ew.
+    + destruct (containsb q3d q && containsb q3s q); [discriminate|].
+      injection Hf as <-. apply (mem_roundtrip v q Eq).
+    + injection Hf as <-. apply orb_false_iff in Ew. destruct Ew as [E1 E2].
+      unfold quote_residue in Hres. rewrite En, E1, E2 in Hres. cbn [negb andb] in Hres.
+      apply unquote_bare. exact Hres.
+  - injection Hf as <-. apply (mem_roundtrip v q Eq).
+Qed.
+
+(* the residue really is damaged: the full statement is still FALSE through the file *)
+Theorem file_roundtrip_refuted :
+  exists v, value_safe v = true /\ quote_residue v = true /\
+            set_get_mem v = Some v /\
+            set_save_get v = SOk (removelast (tl v)) /\ set_save_get v <> SOk v.
 Proof.
   exists [34; 97; 39; 98; 34]. vm_compute. repeat split; discriminate.
 Qed.
 
-(* every value that needs triple quotes is damaged in memory *)
-Theorem mem_roundtrip_fails : forall v, need_triple v = true -> set_get_mem v <> Some v.
+(* regression witnesses of the repaired findings *)
+Example roundtrip_repaired_examples :
+  set_get_mem [97; 10; 98] = Some [97; 10; 98] /\ set_save_get [97; 10; 98] = SOk [97; 10; 98] /\
+  set_get_mem [97; 34; 98; 39; 99] = Some [97; 34; 98; 39; 99] /\
+  set_save_get [97; 34; 39; 35] = SOk [97; 34; 39; 35].
+Proof. vm_compute. repeat split; reflexivity. Qed.
+
+(* ---- the OLD code (before 4293772): in memory the value survived EXACTLY when it
+   contained no newline and not both kinds of quote ------------------------------------- *)
+Theorem mem_roundtrip_old_iff : forall v, set_get_mem_old v = Some v <-> need_triple v = false.
 Proof.
-  intros v H Heq. apply mem_roundtrip_iff in Heq. congruence.
+  intro v. split.
+  - intro H. destruct (need_triple v) eqn:E; [|reflexivity]. exfalso.
+    unfold set_get_mem_old, mem_raw, cobj_quote in H. destruct v as [|c v]; [discriminate|].
+    rewrite E in H.
+    assert (Hlen : forall q3, length q3 = 3%nat ->
+                   Some (unquote_old (q3 ++ (c :: v) ++ q3)) = Some (c :: v) -> False).
+    { intros q3 Hq Heq. injection Heq as Heq.
+      pose proof (unquote_old_length (q3 ++ (c :: v) ++ q3)) as Hl.
+      cbn [app] in Hl. rewrite Heq in Hl. rewrite app_length in Hl. cbn [length] in Hl.
+      rewrite app_length, Hq in Hl. lia. }
+    destruct (containsb q3d (c :: v) && containsb q3s (c :: v)); [discriminate|].
+    destruct (containsb q3d (c :: v)); eapply Hlen; try exact H; reflexivity.
+  - intro H. destruct (cobj_quote_simple v H) as (r & Hr & _ & Hu).
+    unfold set_get_mem_old, mem_raw. rewrite Hr, Hu. reflexivity.
 Qed.
 
-(* non-trivial instances of the guarded theorems *)
+Theorem old_roundtrip_refuted_newline :
+  exists v, value_safe v = true /\
+            set_get_mem_old v = Some ([34; 34] ++ v ++ [34; 34]) /\ set_get_mem_old v <> Some v.
+Proof.
+  exists [97; 10; 98]. vm_compute. repeat split; discriminate.
+Qed.
+
+(* non-trivial instance *)
 Example roundtrip_example :
   let v := lit " a,b#c=d\e 'f' " in
-  need_triple v = false /\ set_get_mem v = Some v /\ set_save_get v = SOk v /\
+  quote_residue v = false /\ set_get_mem v = Some v /\ set_save_get v = SOk v /\
   mem_raw v <> Some v.
 Proof. vm_compute. repeat split; discriminate. Qed.
 
